@@ -593,42 +593,60 @@ def _want_tuple(e):
 
 
 def _history_job(job):
-    """all histories of <= 3 events on ONE parsed file: creates of views (from a pool of 4) and reads of their lists"""
+    """histories on ONE parsed file: creates of views (from a pool of 4 filters), reads of their lists and tabulations of
+    them; all sequences of <= 3 events, and the 4-event ones that create two views and then read / tabulate twice"""
     di, pool, seed = job
     doc = _VDOCS[di]
     by = {json.dumps(c["view"], sort_keys=True): c for c in _VCASES if c["doc"] == di + 1}
     import itertools
-    text = v_render(doc, "setfl_fs" if doc["fs"] else "setfl")
-    events = [("create", vid, pv) for vid in (1, 2) for pv in range(len(pool))] + [("read", vid, l) for vid in (1, 2) for l in ("pair", "embed", "dens")]
+    target = "setfl_fs" if doc["fs"] else "setfl"
+    text = v_render(doc, target)
+    creates = [("create", vid, pv) for vid in (1, 2) for pv in range(len(pool))]
+    uses = [("read", vid, l) for vid in (1, 2) for l in ("pair", "embed", "dens")] + [("tab", vid, None) for vid in (1, 2)]
+    events = creates + uses
+    hists = [h for L in (2, 3) for h in itertools.product(events, repeat=L)]
+    hists += [(a, b, c, d) for a in creates if a[1] == 1 for b in creates if b[1] == 2 for c in uses for d in uses if "tab" in (c[0], d[0])]
+    want_table = {}
     bad, n = [], 0
-    for L in (2, 3):
-        for hist in itertools.product(events, repeat=L):
-            if hist[0][0] != "create" or not any(e[0] == "read" for e in hist):
+    for hist in hists:
+        if hist[0][0] != "create" or not any(e[0] != "create" for e in hist):
+            continue
+        cp = ConfigParser(io.StringIO(text))
+        views, filt = {}, {}
+        for ev in hist:
+            if ev[0] == "create":
+                v = pool[ev[2]]
+                labels = [SPL[x] for x in v["S"]]
+                views[ev[1]] = FilteredConfigParser(cp, include=labels) if v["mode"] == "include" else FilteredConfigParser(cp, exclude=labels)
+                filt[ev[1]] = v
                 continue
-            cp = ConfigParser(io.StringIO(text))
-            views, filt = {}, {}
-            ok = True
-            for ev in hist:
-                if ev[0] == "create":
-                    v = pool[ev[2]]
-                    labels = [SPL[x] for x in v["S"]]
-                    views[ev[1]] = FilteredConfigParser(cp, include=labels) if v["mode"] == "include" else FilteredConfigParser(cp, exclude=labels)
-                    filt[ev[1]] = v
-                else:
-                    if ev[1] not in views:
-                        ok = False
-                        break
-                    lst = ev[2]
-                    attr = {"pair": "pair", "embed": "eam_embed", "dens": "eam_density_fs" if doc["fs"] else "eam_density"}[lst]
-                    got = [_sp_tuple(p, doc["fs"], lst) for p in getattr(views[ev[1]], attr)]
-                    want = [_want_tuple(e) for e in by[json.dumps(filt[ev[1]], sort_keys=True)]["filtered"][lst]]
-                    n += 1
-                    if got != want and len(bad) < 5:
-                        bad.append(("view-not-independent", "history %s: reading %s of view %d (%s %s) gives %s, expected %s" % (
-                            [(e[0], e[1], (pool[e[2]]["mode"], [SPL[x] for x in pool[e[2]]["S"]]) if e[0] == "create" else e[2]) for e in hist], lst, ev[1],
-                            filt[ev[1]]["mode"], [SPL[x] for x in filt[ev[1]]["S"]], got, want)))
-            if not ok:
-                continue
+            if ev[1] not in views:
+                break
+            fkey = json.dumps(filt[ev[1]], sort_keys=True)
+            describe = lambda: [(e[0], e[1], (pool[e[2]]["mode"], [SPL[x] for x in pool[e[2]]["S"]]) if e[0] == "create" else e[2]) for e in hist]
+            if ev[0] == "read":
+                lst = ev[2]
+                attr = {"pair": "pair", "embed": "eam_embed", "dens": "eam_density_fs" if doc["fs"] else "eam_density"}[lst]
+                got = [_sp_tuple(p, doc["fs"], lst) for p in getattr(views[ev[1]], attr)]
+                want = [_want_tuple(e) for e in by[fkey]["filtered"][lst]]
+                n += 1
+                if got != want and len(bad) < 5:
+                    bad.append(("view-not-independent", "history %s: reading %s of view %d (%s %s) gives %s, expected %s" % (
+                        describe(), lst, ev[1], filt[ev[1]]["mode"], [SPL[x] for x in filt[ev[1]]["S"]], got, want)))
+            else:
+                if fkey not in want_table:
+                    want_table[fkey] = v_tabulate(v_render(by[fkey]["filtered"], target), False)
+                view = views[ev[1]]
+
+                def run():
+                    out = io.StringIO()
+                    Configuration().read_from_parser(view).write(out)
+                    return out.getvalue()
+                got = v_outcome(run, False)
+                n += 1
+                if got != want_table[fkey] and len(bad) < 5:
+                    bad.append(("view-not-independent", "history %s: tabulating view %d (%s %s) gives %s, the hand-deleted file gives %s" % (
+                        describe(), ev[1], filt[ev[1]]["mode"], [SPL[x] for x in filt[ev[1]]["S"]], got[0] if got[0] != "ok" else "a different table", want_table[fkey][0])))
     return dict(bad=bad, n=n)
 
 
@@ -876,7 +894,7 @@ def main_c13(tier, seed):
             run.replayed += len(shists)
             if not run.machinery_errors:
                 c13_traces(run, tier, seed)
-            run.rule = "cases = 3 files (EAM, Finnis-Sinclair, a second EAM) x 32 views (include/exclude x subsets of 3 species + an unknown label) x 7 / 3 targets x {CLI, API}; histories = all sequences of <= 3 create/read events over 2 views from seeded pools of 4 filters; session histories = the witness history of every distinct state of ViewSession.tla (parse / create / read / release over 2 parser handles, 3 files, 2 views, 2 filters) that ends in a read; non-trivial = proper non-empty species set"
+            run.rule = "cases = 3 files (EAM, Finnis-Sinclair, a second EAM) x 32 views (include/exclude x subsets of 3 species + an unknown label) x 7 / 3 targets x {CLI, API}; histories = all sequences of <= 3 create/read/tabulate events over 2 views from seeded pools of 4 filters, and the 4-event ones create, create, use, use with a tabulation; session histories = the witness history of every distinct state of ViewSession.tla (parse / create / read / release over 2 parser handles, 3 files, 2 views, 2 filters) that ends in a read; non-trivial = proper non-empty species set"
     except tlc.TLCError as e:
         run.machinery(str(e))
     return run.finish()
